@@ -28,7 +28,7 @@ YOUR TASK: produce {n} DISTINCT, realistic changes to the library source (files 
 For each change k = 1..{n}:
   1. Start from a clean tree (git -C {wt} checkout -- . ; git -C {wt} status must be clean).
   2. Edit the source. Run the full test suite as above and confirm the result is still 134 passed / 1 failed (test_roundtrip) / 4 skipped. If another test fails, the change is not acceptable: revise it.
-  3. Write a demonstration {out}/{{k}}/demo.py: a small self-contained program using the library's public API/CLI (it may create files under its own tempfile.mkdtemp()) that exits 0 when the property holds and exits non-zero (e.g. AssertionError) when it is violated. Run it with the change applied (must FAIL) and, after `git stash` or checkout, on the clean tree (must PASS, exit 0). The demo must be deterministic and finish in under a minute.
+  3. Write a demonstration {out}/{{k}}/demo.py: a small self-contained program using the library's public API/CLI (it may create files under its own tempfile.mkdtemp()) that exits 0 when the property holds and exits non-zero (e.g. AssertionError) when it is violated. Run it with the change applied (must FAIL) and, after saving the diff and `git checkout -- .` (NEVER use `git stash`: the stash is shared between worktrees and other agents run concurrently), on the clean tree (must PASS, exit 0). The demo must be deterministic and finish in under a minute.
   4. Save the change as {out}/{{k}}/patch.diff produced by `git -C {wt} diff` (it must apply to a clean checkout with `git apply`).
   5. Write {out}/{{k}}/notes.txt: one paragraph saying what the change does, why it breaks the property, and exactly what it needs in order to manifest (input / option / sequence), plus the pytest summary line you observed with the change applied.
   6. Restore the clean tree (git -C {wt} checkout -- . and remove untracked files you created in the worktree other than .tmp).
